@@ -25,7 +25,7 @@ from core import Check, hx, VERIF, REPO, run_driver
 from embit import bip39
 
 PROP = "C15"
-MODS = ["EmbitModel.Props.C15"]
+MODS = ["EmbitModel.Props.C15", "EmbitModel.Props.C15X"]
 ALLOWED_ENT = (16, 20, 24, 28, 32)
 ALLOWED_WORDS = (12, 15, 18, 21, 24)
 
@@ -251,6 +251,21 @@ def check_seed(c, l, m, pw, kind, validate=True):
     mu, pu = m.encode("utf-8"), pw.encode("utf-8")
     c.expect("bip39.seed %d %s %s %s" % (1 if validate else 0, l.toks(words), hx(mu), hx(pu)), ans(r, hx), info,
              proven=in_domain)
+    # the same through the model of the function on STRINGS (Model/Bip39Str.lean, theorems C15X): the driver splits
+    # the string and encodes it itself, so the validated words and the hashed bytes come from one argument
+    try:
+        m.encode("utf-8"), pw.encode("utf-8")
+        encodable = True
+    except UnicodeEncodeError:
+        encodable = False
+    if encodable:
+        cps = lambda t: " ".join([str(len(t))] + [str(ord(ch)) for ch in t])  # noqa: E731
+        sps = sorted({ord(ch) for ch in m if ch.isspace()})
+        dic = [(w, l.index[w]) for w in sorted(set(words)) if w in l.index]
+        c.expect("bip39.seedstr %d %s %s %s %s" % (
+            1 if validate else 0, cps(m), " ".join([str(len(sps))] + [str(x) for x in sps]),
+            " ".join([str(len(dic))] + ["%s %d" % (cps(w), i) for w, i in dic]), cps(pw)), ans(r, hx),
+            dict(info, op="seedstr"), proven=in_domain)
     valid = spec_decode(words, l) is not None
     if validate and in_domain:
         if valid != (r[0] == "ok"):
